@@ -12,6 +12,9 @@ import (
 func (vc *FnVC) setVal(v ssa.Value, t Term) {
 	sort := vc.e.sortOf(v.Type())
 	vc.vals[v] = vc.define(v.Name(), sort, t)
+	if sort == "Slice" {
+		vc.assumeLoaded(vc.vals[v], v.Type())
+	}
 }
 
 func (vc *FnVC) b() Term { return vc.blockLit[vc.curBlock] }
@@ -192,7 +195,7 @@ func (vc *FnVC) alloc(x *ssa.Alloc) {
 	t := x.Type().Underlying().(*types.Pointer).Elem()
 	r := vc.newRef()
 	vc.vals[x] = r
-	if at, ok := t.Underlying().(*types.Array); ok {
+	if at, ok := t.Underlying().(*types.Array); ok && vc.private[x] == "" {
 		comp := vc.e.arrComp(at.Elem())
 		zarr := fmt.Sprintf("((as const (Array Int %s)) %s)", vc.e.sortOf(at.Elem()), vc.e.zero(at.Elem()))
 		vc.cur = vc.cur.update(comp, app("store", vc.cur.get(comp), r, zarr))
@@ -574,8 +577,7 @@ func (vc *FnVC) ret(x *ssa.Return) {
 	if vc.ct.HasAssign {
 		vc.frameObligation(m, x.Pos(), suffix)
 	}
-	o := vc.oblige("cover", "cover.return"+suffix, vc.b(), "true", x.Pos(), "return reachable under the precondition")
-	o.ExpectSat = true
+	vc.retLits = append(vc.retLits, vc.b())
 }
 
 func returnOrdinal(fn *ssa.Function, r *ssa.Return) int {
